@@ -235,7 +235,8 @@ impl Cast<Time> for bool {
 impl Cast<String> for Option<bool> {
     #[inline]
     fn cast(self) -> String {
-        format!("{:?}", self)
+        // like the numeric Option<T> -> String casts: the inner value, or the null string
+        self.map(|v| v.to_string()).unwrap_or("None".to_string())
     }
 }
 
